@@ -1,13 +1,16 @@
 /-
 Props/C13.lean — a body gives the same field however it is represented or subdivided.
 Proved: Sphere (outside) = Dipole with moment J·V/μ₀; TriangularMesh / Tetrahedron are by
-construction the sum of their triangle sheets plus the inside term (wrapper `wrapH`, C02).
+construction the sum of their triangle sheets plus the inside term (wrapper `wrapH`, C02); a
+straight current segment may be subdivided at any point of its carrier line, and reversing it
+negates the field (both from the Biot–Savart integral representation, Lemmas/SegmentBS.lean).
 /- FULL: Cuboid = its mesh = its tetrahedra; Cylinder = full-angle segment = sum of segments;
    partition additivity of Cuboid/Cylinder; Polyline → Circle.  These equate different closed
    forms (each equivalent to C01 for both sides) and are not shown by theorem; the whole-vs-parts
    oracle checks them on the real code. -/
 -/
 import MagpyVerif.Lemmas.KernReal
+import MagpyVerif.Lemmas.SegmentBS
 namespace MagpyVerif.C13
 open MagpyVerif MagpyVerif.Kern
 
@@ -30,5 +33,27 @@ polarization inside for B (the `wrapH` dispatch): H of the body = H of the close
 theorem mesh_H_is_sum_of_sheets (inside : Bool) (pol sheets : V3 ℝ) :
     wrapH .H inside pol sheets = vd sheets mu0R ∧
     wrapH .B inside pol sheets = sheets + (if inside then pol else zero3) := ⟨rfl, rfl⟩
+
+
+/-- C13 (Polyline): subdividing a straight segment p1→p2 at the collinear point
+`p3 = p1 + τ (p2 − p1)` (any τ ≠ 0, 1 — for τ outside [0,1] the second piece runs backwards)
+does not change the field: `segmentH` of the two pieces adds up to `segmentH` of the whole, for
+every observer off the carrier line.  A Polyline with an extra collinear vertex is the same source. -/
+theorem polyline_split_additive (cur τ : ℝ) (p1 p2 po : V3 ℝ) (hτ0 : τ ≠ 0) (hτ1 : τ ≠ 1)
+    (hoff : 0 < SegBS.nsq (V3.cross (p2 - p1) (po - p1))) :
+    segmentH cur p1 (SegBS.lerp p1 p2 τ) po + segmentH cur (SegBS.lerp p1 p2 τ) p2 po = segmentH cur p1 p2 po :=
+  SegBS.segment_split p1 p2 po cur τ hτ0 hτ1 hoff
+
+/-- C13 (Polyline): traversing a segment in the opposite direction negates its field -/
+theorem polyline_reverse_negates (cur : ℝ) (p1 p2 po : V3 ℝ)
+    (hoff : 0 < SegBS.nsq (V3.cross (p2 - p1) (po - p1))) :
+    segmentH cur p2 p1 po = vs (-1) (segmentH cur p1 p2 po) :=
+  SegBS.segment_reverse p1 p2 po cur hoff
+
+-- non-vacuity: midpoint split of a unit segment along x, observer at (1/2, 1, 0)
+example : (1/2 : ℝ) ≠ 0 ∧ (1/2 : ℝ) ≠ 1 ∧
+    0 < SegBS.nsq (V3.cross ((⟨1, 0, 0⟩ : V3 ℝ) - ⟨0, 0, 0⟩) (⟨1/2, 1, 0⟩ - ⟨0, 0, 0⟩)) := by
+  refine ⟨by norm_num, by norm_num, ?_⟩
+  simp [SegBS.nsq, V3.cross]
 
 end MagpyVerif.C13
